@@ -24,7 +24,7 @@ Pyrex', n = 6, bound 3e-6).
 import os, re, json, math, signal, tempfile, itertools
 import ctypes as C
 import numpy as np
-from .. import common, refdata, xl, execlib
+from .. import srctab, common, refdata, xl, execlib
 
 EXTREME = [-2147483648, 2147483647, -65536, 65536]
 SYM_RE = re.compile(r'^[A-Z][a-z]{0,2}$')
@@ -221,10 +221,22 @@ def check_indexed(ck, X, F, tier, tag, lister, getter, macros, prefix):
 
 def check_compound_entries(ck, X, F, entries, syms, st):
     worst = (0.0, None)
+    src = srctab.nist_compounds()       # the table the catalogue is compiled from, read from the source text of the tree
+    st['source_table_rows'] = len(src)
+    st['copies_compared_with_source_table'] = 0
     for i, e in sorted(entries.items()):
         nm, n = e['name'], e['nElements']
         wit = dict(index=i, name=nm, Elements=e['Elements'], massFractions=e['massFractions'], density=e['density'])
         good = True
+        # "every lookup returns a deep COPY": what comes out is what the table holds, bit for bit (a value narrowed or rounded on its way
+        # through the public struct is not a copy of the tabulated one)
+        r = src.get(nm)
+        if r is not None and r['index'] == i:
+            st['copies_compared_with_source_table'] += 1
+            if e['density'] != r['density'] or e['Elements'] != r['Elements'] or e['massFractions'] != r['massFractions']:
+                what = 'density' if e['density'] != r['density'] else ('Elements' if e['Elements'] != r['Elements'] else 'massFractions')
+                ck.violation('c15:nist:entry:copy-differs-from-source-table:' + what, 'entry %d %r: the lookup returns %s = %r, the table in src/xraylib-nist-compounds-internal.h has %r' % (
+                    i, nm, what, e[what], r[what]), dict(wit, source_row=r)); good = False
         if n < 1:
             ck.violation('c15:nist:entry:no-elements', 'compound %r has %d elements' % (nm, n), wit); continue
         if any(b <= a for a, b in zip(e['Elements'], e['Elements'][1:])):
